@@ -189,6 +189,10 @@ def main():
     for i, (rule, t) in enumerate(bcases):
         try:
             texts.append((rule, S.to_prophy(t), t[1], blegal.get(i), t))
+            if "[" not in rule:
+                # the documented rules do not depend on typedef indirection: the same breaker with every member
+                # type (counters included) behind a two-level typedef chain
+                texts.append((rule + " (through typedefs)", S.to_prophy_aliased(t), t[1], blegal.get(i), t))
         except ValueError:
             continue
     for rule, text, root in text_breakers(nm):
@@ -215,7 +219,7 @@ def main():
         chk.seen_class(("breaker", re.sub(r" \[.*", "", rule)), True)
         if isl:
             continue        # the edit did not break a documented rule after all (spec says legal)
-        if r["timeout"] or r["rc"] == 0:
+        if r["rc"] == 0 and not r["timeout"]:
             hist = chk.coverage.setdefault("accepted_rule_breakers", {})
             hist[re.sub(r" \[.*", "", rule)] = hist.get(re.sub(r" \[.*", "", rule), 0) + 1
             chk.violation("accepted-%s" % re.sub(r"[^a-z0-9]+", "-", rule.lower())[:60],
